@@ -93,7 +93,7 @@ pub fn single_feature(rng: &mut Rng, backgrounds: &[B], emit_pm: u32, rep: &mut 
         }
         // (4) all 641 statuses, at every step at which a status can be pending, for either side
         let mut seen: HashMap<u64, String> = HashMap::new();
-        for (side, step) in [(true, 1), (true, 2), (true, 3), (false, 1), (false, 3)] {
+        for (side, step) in [(true, 0), (true, 1), (true, 2), (true, 3), (false, 0), (false, 1), (false, 2), (false, 3)] {
             for pps in statuses() {
                 let s = build(bg, side, step, pps);
                 rep.eval("C17");
@@ -102,7 +102,7 @@ pub fn single_feature(rng: &mut Rng, backgrounds: &[B], emit_pm: u32, rep: &mut 
                 if let Some(o) = seen.insert(s.transposition_hash(), name.clone()) {
                     fail(rep, "same-hash-for-different-status", format!("{} and {} on\n{}", o, name, diagram(bg, side, "5")));
                 }
-                if rng.chance(emit_pm.max(100) / 3, 1000) {
+                if rng.chance(emit_pm.max(100) / 5, 1000) {
                     emit(&s, sink);
                 }
             }
